@@ -17,7 +17,7 @@ CONSTANTS MaxElems
 ElemKinds == {"plain", "star", "dstar", "kw"}
 \* contexts whose slots form a sequence
 SeqCtx == {"list", "tuple", "set", "dict", "call", "method", "method-pre", "dotcall", "get", "cut", "op-add", "op-and", "op-le",
-           "bases", "decorators", "except-types", "setv-target"}
+           "bases", "decorators", "except-types", "setv-target", "dot-index"}
 \* contexts with exactly one slot
 OneCtx == {"if-test", "with-manager", "return", "assert", "raise", "setv-value", "not", "fstring-field", "lfor-iter", "while-test"}
 Ctx == SeqCtx \cup OneCtx
@@ -57,6 +57,9 @@ Base(c, k) ==
     \* (setv [t1 #* t2] v): assignment targets; a keyword or a mapping unpacking cannot be assigned to
     [] c = "setv-target" ->
          (CASE k = "plain" -> "target" [] k = "star" -> "starred target" [] k = "kw" -> "none" [] k = "dstar" -> "none")
+    \* (. obj [E]): one subscript per bracket pair
+    [] c = "dot-index" ->
+         (CASE k = "plain" -> "subscript" [] k = "star" -> "open" [] k = "kw" -> "none" [] k = "dstar" -> "none")
     [] c = "not" ->
          (CASE k = "plain" -> "operand" [] k = "kw" -> "operand" [] k = "star" -> "fallback" [] k = "dstar" -> "none")
     \* a single expression: Python has no bare starred or double-starred expression
@@ -86,14 +89,14 @@ WellFormed ==
   /\ (ctx \in OneCtx => (Len(elems) = 1 /\ elems[1] # "kw"))    \* one slot holds one form
   \* cut takes at most three forms after the collection; a keyword element is two forms
   /\ (ctx = "cut" => Len(elems) + Cardinality({i \in 1..Len(elems) : elems[i] = "kw"}) <= 3)
-  /\ (ctx = "op-le" => Len(elems) >= 2)
   \* Python allows one starred target per assignment
   /\ (ctx = "setv-target" => Cardinality({i \in 1..Len(elems) : elems[i] = "star"}) <= 1)
 
 \* the construct of the i-th element: in (.m ARGS.. obj) everything after the first plain form (which is
 \* the object) is an ordinary argument
 CAt(i) ==
-  IF ctx = "method-pre" /\ (\E j \in 1..(i - 1) : elems[j] = "plain") THEN Construct("method", elems[i])
+  IF ctx = "dot-index" /\ i > 1 THEN "none"      \* a second form inside the brackets has no place
+  ELSE IF ctx = "method-pre" /\ (\E j \in 1..(i - 1) : elems[j] = "plain") THEN Construct("method", elems[i])
   ELSE Construct(ctx, elems[i])
 \* what must happen to the program
 Expect ==
